@@ -1,6 +1,7 @@
 import FlowRecord.Model.Selector.Interp
 import FlowRecord.Model.Selector.Ref
 import FlowRecordProofs.Lemmas.SelectorAgree
+import FlowRecordProofs.Lemmas.SelectorCompiled
 /-!
 C07 — both selector engines compute the Python meaning of the expression.
 
@@ -39,6 +40,23 @@ theorem C07_interp_state (P : Prim) (rec : PVal) (fuel : Nat) (e : Expr) (st : S
     (interp P fuel e st).2 = refEval P { compiled := false, record := rec } fuel st.ns e ∧
     (interp P fuel e st).1.ns = st.ns ∧ (interp P fuel e st).1.record = st.record :=
   agree_interp P { compiled := false, record := rec } rfl fuel e st hr hS hG
+
+/-- **Compiled engine.** `CompiledSelector.match` is Python's `eval` in the namespace {helpers, `net`, `r` ↦ wrapped
+    record, `Type`} + builtins (`compiledMatch`). On the documented grammar restricted to the names both namespaces
+    bind (`SupportedC`: `r`, `Type`, the helper functions, `any all str repr`, generator variables; no dunder
+    attributes) it returns exactly the documented meaning whenever that is defined — the wrapped record's sentinel,
+    the unrestricted calls and the unrestricted attribute access of the compiled namespace make no difference there. -/
+theorem C07_compiled (P : Prim) (rec : PVal) (fuel : Nat) (e : Expr) (hS : SupportedC [] e)
+    (hG : Good (refMatch P fuel rec e)) : compiledMatch P fuel rec e = refMatch P fuel rec e :=
+  agreeC_ref P rec fuel [] e hS hG
+
+/-- Both engines: on every expression of the common grammar and every record on which the Python meaning is
+    defined, the interpreted and the compiled engine return the same result — the Python one. -/
+theorem C07_engines_agree (P : Prim) (rec : PVal) (fuel : Nat) (e : Expr) (hS : Supported [] e) (hC : SupportedC [] e)
+    (v : PVal) (h : refMatch P fuel rec e = .ok v) :
+    (interpMatch P fuel rec e).2 = .ok v ∧ compiledMatch P fuel rec e = .ok v := by
+  have hG : Good (refMatch P fuel rec e) := by rw [h]; exact good_ok v
+  exact ⟨by rw [C07_interp P rec fuel e hS hG, h], by rw [C07_compiled P rec fuel e hC hG, h]⟩
 
 /-- Inst: the tables generated from the current source are the documented ones and send every documented
     operator to the same primitive as the reference (a swapped entry such as `Lt ↦ operator.gt` fails here). -/
@@ -162,6 +180,15 @@ example : Supported [] (anyx 1) := by
   refine .compare _ _ _ (.name _ _) ?_ ?_ <;> intro p hp <;> simp only [List.mem_singleton] at hp <;> subst hp
   · decide
   · exact .const _ _
+example : SupportedC [] chain := by
+  refine .compare _ _ _ (.const _ _) ?_
+  intro p hp
+  simp only [List.mem_cons, List.mem_nil_iff, or_false] at hp
+  rcases hp with h | h <;> subst h
+  · exact .attr _ _ _ (by decide) (.name _ _ (Or.inr (by decide)))
+  · exact .const _ _
+example : compiledMatch P0 6 rec0 chain = .ok (.bool false) := by rfl
+example : compiledMatch P0 8 rec0 (.boolop "And" [anyx 1, anyx 2]) = .ok (.bool true) := by rfl
 /-- `(r.a or 5) == 5` (finding #19): the BoolOp yields the operand -/
 example : (interpMatch P0 6 (.recv "t" [("a", "varint", .int 0)])
     (.compare (.boolop "Or" [.attr (.name "r") "a", .const (.int 5)]) [("Eq", .const (.int 5))])).2
